@@ -142,8 +142,8 @@ Proof.
     destruct (limit st =? 0)%Z; auto. destruct (acct st <=? limit st)%Z; auto.
     destruct (mark_stale_entries (Z.max (acct st / 20) (acct st - limit st)) st) as [He _].
     destruct (mark_stale _ st) as [st1 n]. simpl in *. rewrite He. auto.
-  - inversion H; subst. simpl.
-    eapply inv_pay_shrink; [|exact IP]. apply shrink_map. intros x. destruct (stale_in c (gens st) x); [|apply shrinks_refl].
+  - rewrite clean_cache_v_repaired in H. inversion H; subst. simpl.
+    eapply inv_pay_shrink; [|exact IP]. apply shrink_map. intros x. unfold delete_stale_in. destruct (stale_in c (gens st) x); [|apply shrinks_refl].
     repeat split; simpl; auto; discriminate.
   - inversion H; subst; auto.
   - inversion H; subst. unfold rel_collect. destruct (released_idx _ _ _); auto.
